@@ -64,15 +64,34 @@ class SimComm:
         data = self._w._block(self._rank, ("p2p", "obj", "recv", int(source), None))
         return pickle.loads(data)
 
+    # Buffer messages follow mpi4py: the object must expose a contiguous buffer (C- or Fortran-contiguous,
+    # PyBUF_ANY_CONTIGUOUS) and what travels is its raw MEMORY, not its logical (shape-aware) content.
+    @staticmethod
+    def _raw(buf):
+        arr = np.asarray(buf)
+        if not (arr.flags.c_contiguous or arr.flags.f_contiguous):
+            raise ValueError("ndarray is not contiguous")          # what mpi4py raises
+        return arr.dtype.str, arr.tobytes(order="A")               # memory order
+
+    @staticmethod
+    def _fill(buf, dtype, raw):
+        arr = np.asarray(buf)
+        if not (arr.flags.c_contiguous or arr.flags.f_contiguous):
+            raise ValueError("ndarray is not contiguous")
+        if not arr.flags.writeable:
+            raise ValueError("buffer is read-only")
+        if arr.dtype.str != dtype or arr.nbytes != len(raw):
+            raise ProtocolError(f"buffer mismatch: message {dtype}/{len(raw)} bytes into {arr.dtype.str}/{arr.nbytes} bytes")
+        flat = np.frombuffer(raw, dtype=arr.dtype)
+        mem = arr.reshape(-1) if arr.flags.c_contiguous else arr.T.reshape(-1)   # view of the memory in address order
+        mem[...] = flat
+
     def Send(self, buf, dest, tag=0):
-        arr = np.array(buf, copy=True)
-        self._w._block(self._rank, ("p2p", "buf", "send", int(dest), arr))
+        self._w._block(self._rank, ("p2p", "buf", "send", int(dest), self._raw(buf)))
 
     def Recv(self, buf, source=0, tag=0):
-        data = self._w._block(self._rank, ("p2p", "buf", "recv", int(source), None))
-        if data.shape != buf.shape or data.dtype != buf.dtype:
-            raise ProtocolError(f"Recv buffer mismatch: {data.shape}/{data.dtype} into {buf.shape}/{buf.dtype}")
-        buf[...] = data
+        dtype, raw = self._w._block(self._rank, ("p2p", "buf", "recv", int(source), None))
+        self._fill(buf, dtype, raw)
 
     # -- collectives
     def Barrier(self):
@@ -85,11 +104,9 @@ class SimComm:
 
     def Bcast(self, buf, root=0):
         data = self._w._block(self._rank, ("coll", "Bcast", int(root),
-                                           np.array(buf, copy=True) if self._rank == root else None))
+                                           self._raw(buf) if self._rank == root else None))
         if self._rank != root:
-            if data.shape != buf.shape or data.dtype != buf.dtype:
-                raise ProtocolError("Bcast buffer mismatch")
-            buf[...] = data
+            self._fill(buf, *data)
 
     def allgather(self, obj):
         data = self._w._block(self._rank, ("coll", "allgather", None, pickle.dumps(obj)))
